@@ -38,6 +38,7 @@ var c13N1Fixed = func() string {
 
 func c13NameCase(out *zzverif.Out, s string) {
 	op := "nname " + c13N1Fixed + " " + zzverif.Hex([]byte(s))
+	out.Count("variant_n1_fixed_" + c13N1Fixed)
 	p := Parse(s)
 	m := Merge(p, c13Mask)
 	out.Case(op, fmt.Sprintf("p=%s valid=%s fq=%s str=%s merged=%s mfq=%s mstr=%s", c13Fields(p),
@@ -290,6 +291,17 @@ func TestVerifC13Table(t *testing.T) {
 		t.Fatal(err)
 	}
 	defer f.Close()
+	// finding N1's witness on the real code: Parse("h//m").IsValid(), Parse("h//m:t").IsValid(), Parse("h:80//m").IsValid()
+	// (consumed by Tie.C13.n1_variant_is_repaired: the model of the CURRENT tree must say the same)
+	n1 := []string{}
+	for _, w := range []string{"h//m", "h//m:t", "h:80//m"} {
+		if Parse(w).IsValid() {
+			n1 = append(n1, "1")
+		} else {
+			n1 = append(n1, "0")
+		}
+	}
+	fmt.Fprintf(f, "N 0 n1probe %s\n", strings.Join(n1, " "))
 	for kind := 0; kind < 4; kind++ {
 		var first, rest []string
 		inFirst, inRest := [256]bool{}, [256]bool{}
